@@ -16,10 +16,10 @@ MANIFEST = {
     "RequestStop -> success, FailedPause/RequestAbort/CancelledError/PlanHalt -> abort, everything else -> fail with the "
     "exception as reason); C02_engine_closed_status -- every RunStop written by the outer finally carries that status and "
     "the reason 'exception text, else the abort reason' and every open run gets exactly one, for any number of open runs; "
-    "C02_request_constants -- what abort/stop/halt store themselves and what they leave for _run (exception slot when "
+    "C02_abort_request / C02_stop_request / C02_halt_request / C02_cancellation_becomes_control_exception -- what abort/stop/halt store themselves and what they leave for _run (exception slot when "
     "paused, cancellation otherwise, turned into the control exception by the CancelledError handler); C02_call_outcome -- "
-    "RE()/resume() raise RunEngineInterrupted iff the task did not raise and _interrupted, and the task re-raises the "
-    "exception that left the loop exactly for the 'fail' classes; C02_status_at_cleanup (GLOBAL, every plan, script, fuel): "
+    "RE()/resume() raise RunEngineInterrupted iff the task did not raise and _interrupted, and (C02_task_reraises, C02_fail_iff_reraised) the task re-raises the "
+    "exception that left the loop exactly for the 'fail' classes; C02_status_when_cleanup_runs (GLOBAL, every plan, script, fuel): "
     "whenever the task has ended the stored status is the ladder value of the exception that left the loop, or 'abort' "
     "(stored by an abort request made after the loop was left).  The model is tied to the real RunEngine by differential "
     "runs on targeted scenarios (open runs x every way of ending x requests at every arrival incl. the exit sleep).",
@@ -336,8 +336,8 @@ def run(ctx, model=True):
     global _ENUM
     if _ENUM is None:
         _ENUM = enumerate_s4()
-    extra = _ENUM if (ctx.tier == "thorough" or ctx.deep) else ctx.rng.sample(_ENUM, 40)
-    return E.run_property(ctx, "C02", oracle, gen=gen, quick=60, thorough=1500, model=model, extra_scenarios=extra)
+    extra = _ENUM if (ctx.tier == "thorough" or ctx.deep) else ctx.rng.sample(_ENUM, 50)
+    return E.run_property(ctx, "C02", oracle, gen=gen, quick=100, thorough=1500, model=model, extra_scenarios=extra)
 
 
 def run_impl_only(ctx):
